@@ -99,7 +99,18 @@ def shrink(c):
 MULTI_CMDS = [['revcomp'], ['toupper'], ['tolower'], ['unalign'], ['revcomp', 'nope', 's1'], ['revcomp', 's1', 'ref'], ['revcomp', 'zz', 'ref', 's1']]
 
 
+def _gen_large(rng, tier):
+    for _ in range(2 if tier == "quick" else 12):
+        n, L = (rng.randint(1, 3), rng.choice([4097, 4300, 6000])) if rng.random() < 0.6 else (rng.choice([101, 140]), rng.randint(1, 8))
+        rows = [("s%d" % i, "".join(rng.choice("ACGTacgtRYKMN-") for _ in range(L))) for i in range(n)]
+        yield Case("revcomp", [1, rows_str(rows)], True, "revcomp-large")
+        for op in ("toupper", "tolower", "unalign"):
+            yield Case(op, [rows_str(rows)], True, op + "-large")
+
+
 def gen(rng, tier):
+    for c in _gen_large(rng, tier):
+        yield c
     from driver import multigen
     for c in _gen_core(rng, tier):
         yield c
